@@ -54,7 +54,7 @@ def generate(rng, tier):
     n = rng.randint(1, 6)
     cols = _table(rng, n, rng.randint(2, 5))
     names = [c[0] for c in cols]
-    case = {"mode": mode, "cols": cols, "writer": rng.choice(["library", "independent"])}
+    case = {"mode": mode, "cols": cols, "writer": rng.choice(["library", "independent"]), "ragged": rng.getrandbits(16) if rng.random() < 0.4 else 0}
     if mode == "restrict":
         case["reader"] = rng.choice(READERS)
         k = rng.randint(1, len(names))
@@ -67,6 +67,8 @@ def generate(rng, tier):
                 elif kind == "digits" and case["reader"] in ("df-json", "lod-json", "lod-csv", "geojson"): m[name] = "int"
                 elif kind == "iso" and case["reader"] in ("df-json", "geojson"): m[name] = "datetime64[D]"
                 elif kind == "float" and case["reader"].startswith("lod"): m[name] = "str"
+        if case["ragged"] and case["reader"] in ("df-json", "geojson"):
+            m = {}      # a cast of a column that also holds missing values is not one of the unambiguous casts
         case["map"] = m
         if case["reader"] in ("df-csv", "lod-csv") and rng.random() < 0.3:
             case["sep"] = rng.choice([";", "\t", "|"])
@@ -106,6 +108,8 @@ def generate(rng, tier):
         elif alias == "read_npz":
             if maybe(0.6): kw["allow_pickle"] = rng.choice([True, False])
             case["npz_object"] = rng.random() < 0.4
+        if case["ragged"]:
+            kw.pop("dtypes", None)
         case["kw"] = kw
     return case
 
@@ -120,6 +124,14 @@ def _write(case, path, fmt, enc="utf-8", sep=",", header=True):
     names = [c[0] for c in cols]
     n = len(cols[0][2])
     rows = [{c[0]: c[2][i] for c in cols} for i in range(n)]
+    if fmt in ("json", "geojson") and case.get("ragged"):
+        # ragged records: some keys are absent from some records (never from all); the first record may lack keys that appear later
+        import random as _r
+        rr = _r.Random(case["ragged"])
+        for i, r in enumerate(rows):
+            for k in list(r):
+                if rr.random() < 0.3 and sum(1 for q in rows if k in q) > 1:
+                    del r[k]
     lib = case["writer"] == "library"
     if fmt == "csv":
         if lib and enc == "utf-8":
